@@ -126,7 +126,28 @@ func (c *vNetConn) SetWriteDeadline(t time.Time) error { return nil }
 
 type vFailingBuilder struct{}
 
-func (vFailingBuilder) buildFrame(f *framer, streamID int) error { return vErrIO }
+func (vFailingBuilder) buildFrame(f *framer, streamID int) error {
+	vCaptureCall(streamID)
+	return vErrIO
+}
+
+// vOKBuilder builds an OPTIONS frame; like vFailingBuilder it first notes the call exec registered
+// (buildFrame is the first thing exec does after addCall succeeded).
+type vOKBuilder struct{}
+
+func (vOKBuilder) buildFrame(f *framer, streamID int) error {
+	vCaptureCall(streamID)
+	return (&writeOptionsFrame{}).buildFrame(f, streamID)
+}
+
+func vCaptureCall(streamID int) {
+	vBuildCalls++
+	if c, ok := vConn.calls[streamID]; ok && c != nil {
+		vCall = c
+	}
+}
+
+var vBuildCalls int
 
 func vNewConn() *Conn {
 	ver := byte(vBound("version"))
@@ -188,7 +209,8 @@ func vh_exec() {
 		close(ctx.done)
 		ctx.err = context.Canceled
 	}
-	var req frameBuilder = &writeOptionsFrame{}
+	var req frameBuilder = vOKBuilder{}
+	vBuildCalls = 0
 	buildFails := vBool("build_fails")
 	if buildFails {
 		req = vFailingBuilder{}
@@ -220,6 +242,10 @@ func vh_exec() {
 		vAssert(oc == otherCall && !vIsClosed(otherCall.timeout), "C01/exec/other-calls-untouched")
 	}
 	registered := vCall != nil
+	if vBuildCalls > 0 {
+		// buildFrame is reached only after addCall succeeded: the call was registered under its id
+		vAssert(registered && vCall.streamID == vStreamID, "C01/exec/registered-under-its-id-before-building")
+	}
 	if registered {
 		// C06: after addCall succeeded every exit received the response or closed call.timeout
 		vAssert(vIsClosed(vCall.timeout), "C06/exec/exit-closes-timeout-so-the-closer-can-proceed")
